@@ -31,6 +31,8 @@ mod c_modular;
 #[cfg(kani)]
 mod c_image;
 #[cfg(kani)]
+mod c_toc;
+#[cfg(kani)]
 mod c_container;
 #[cfg(kani)]
 mod playback_gen;
